@@ -51,6 +51,8 @@ def gen_tree(r, depth=0, max_depth=4, text_p=0.35, special_p=0.12, tags=TAGS, fa
                 kids.append((r.choice(['c', 'cd', 'pi']), r.choice(TEXTS + ['a', 'zz'])))
             else:
                 kids.append(gen_tree(r, depth + 1, max_depth, text_p, special_p, tags, fan))
+        if kids and r.random() < 0.25:
+            kids.insert(r.randint(0, len(kids)), r.choice(kids))     # a structurally identical sibling
     return ('e', name, None, None, gen_attrs(r), kids)
 
 
@@ -67,8 +69,12 @@ def gen_doc(r, **kw):
     if r.random() < 0.15:
         top.append(('t', r.choice([' ', '\n', 'a'])))
     top.append(gen_tree(r, text_p=text_p, **kw))
-    if r.random() < 0.1:
-        top.append(gen_tree(r, max_depth=1, text_p=text_p))
+    # several top-level elements (a fragment without a wrapper): siblings directly under the document object
+    if r.random() < 0.3:
+        for _ in range(r.randint(1, 3)):
+            if r.random() < 0.3:
+                top.append(('t', r.choice([' ', 'a'])))
+            top.append(gen_tree(r, max_depth=r.choice([0, 1, 2]), text_p=text_p))
     if r.random() < 0.15:
         top.append(('t', r.choice([' ', '\n', 'a', '\xa0'])))
     if r.random() < 0.1:
@@ -320,6 +326,11 @@ def gen_form_tree(r, depth=0):
             sub = gen_form_tree(r, depth + 1)
             d = [('dir', r.choice(['ltr', 'rtl', 'auto']))] if r.random() < 0.5 else []
             kids.append(('e', 'div', None, None, d, sub[5]))
+    # bs4 compares tags structurally: structurally identical controls / forms are where identity matters
+    for _ in range(r.choice([0, 0, 1, 2])):
+        if kids:
+            src = r.choice(kids)
+            kids.insert(r.randint(0, len(kids)), src)
     return ('e', 'div', None, None, [], kids)
 
 
